@@ -511,7 +511,7 @@ Print Assumptions C15_tr_ec_glob_shape.
 
 Theorem C15_tr_ec_glob_too_deep : forall ext fuel d vloc vcmd ba oa vtxt (m : mem) g v m',
   cell_at m G_xgdep g -> (7 <= g)%Z -> i32 g ->
-  ext X_ex_show [VPtr G_lit_676c6f62616c206e657374696e6720746f6f2064_23 0] (glob_entry_mem m (VPtr ba oa)) = Ok (v, m') ->
+  ext X_ex_show [VPtr guard_msg_block 0] (glob_entry_mem m (VPtr ba oa)) = Ok (v, m') ->      (* guard_msg_block: the string literal passed to ex_show *)
   callx ext cprog fuel (S (S d)) F_ec_glob [vloc; vcmd; VPtr ba oa; vtxt] m = Ok (VInt 1, m').
 Proof. exact tr_ec_glob_too_deep. Qed.
 Print Assumptions C15_tr_ec_glob_too_deep.
